@@ -176,6 +176,61 @@ theorem select_context_bad_key (key : KeyArg) (p : Val → Res) (roe : Bool) (v 
 
 example : (KeyArg.dict ["a"] .multi).resolve = .valueError ∧ KeyArg.badList.resolve = .typeError := by decide
 
+/-- **"SelectContext applies its predicate to the addressed sub-context"**, the error branch: when the addressed
+sub-context is PRESENT and the predicate raises, the exception — of whatever class, lena's own `LenaKeyError`
+(which `SelectContext` catches around the *lookup of its key*) included — propagates with `raise_on_error=True`
+and counts as "not selected" with `raise_on_error=False`; it is never mistaken for an absent sub-context -/
+theorem select_context_pred_raises (key : KeyArg) (p : Val → Res) (roe : Bool) (v : Item) (ks : List String)
+    (sub : Val) (e : String) (hr : key.resolve = .keys ks)
+    (h : valAt names (.dict (v.context names.length)) ks = some sub) (he : p sub = .raise e) :
+    call names (.selCtx key p roe) v = if roe then .raise e else .ok false := by
+  rw [select_context_present names key p roe v ks sub hr h, he]
+  cases roe <;> rfl
+
+example :
+    let p : Val → Res := fun _ => .raise "LenaKeyError"      -- the predicate looks for a key that is missing
+    let v : Item := ⟨.int 1, some [some (.dict [some (.leaf (.int 1)), none]), none]⟩    -- (1, {"a": {"a": 1}})
+    call ["a", "b"] (.selCtx (.str "a") p true) v = .raise "LenaKeyError" ∧
+    call ["a", "b"] (.selCtx (.str "a") p false) v = .ok false ∧
+    call ["a", "b"] (.selCtx (.str "b") p true) v = .ok false := by decide
+
+/-- **"a class tests the type of the data"** — a class `c` as a specification (anywhere a selector is expected,
+both `raise_on_error` settings, also as `Selector(c)` and `Filter(c)`) never raises and selects exactly the
+values whose data is an instance of `c` in Python's sense: `type(data)` inherits from `c` (`inMro`) or is
+recognised by the abstract base class `c` (`abcHas`) — it depends on the type of the data alone, not on its
+value, and not on the context -/
+theorem class_selector_tests_type (r : Bool) (c : PyClass) (v : Item) :
+    (∀ o, mkSelector r (.cls c) = some o → call names o v = .ok (issubclass v.data.dtype c)) ∧
+    (∀ i, inner r (.cls c) = some i → call names (.selector i r) v = .ok (issubclass v.data.dtype c)) ∧
+    (∀ o, filterInit (.cls c) = some o → call names o v = .ok (issubclass v.data.dtype c)) ∧
+    (mkSelector r (.cls c)).isSome = true := by
+  have key : isinstance v.data c = issubclass v.data.dtype c := by
+    cases v with
+    | mk d ctx =>
+      cases d with
+      | other t => cases t <;> cases c <;> rfl
+      | _ => cases c <;> rfl
+  have hs : ∀ r', sem names r' (.cls c) v = .ok (issubclass v.data.dtype c) := by
+    intro r'; rw [sem, key]
+  obtain ⟨h1, h2, h3⟩ := selector_compositional names r (.cls c) v
+  refine ⟨fun o h => by rw [h1 o h, hs], fun i h => by rw [h2 i h, hs]; rfl, fun o h => by rw [h3 o h, hs], ?_⟩
+  simp [mkSelector, Spec.isInst, inner]
+
+/-- the abstract base classes recognise classes that do not inherit from them (a `float` is a `Number`, a `dict` a
+`Mapping`, a `str` a `Sequence`, `None` is `Hashable`): `isinstance` is not membership in the MRO; inheritance
+still counts (a `bool` is an `int`, an instance of a user subclass of `int` is an `int` and an `Integral`) -/
+example : issubclass (.other .float) .number = true ∧ inMro (.other .float) .number = false ∧
+    issubclass (.other .dict) .mapping = true ∧ issubclass .str .sequence = true ∧
+    issubclass .noneType .hashable = true ∧ issubclass (.other .list) .hashable = false ∧
+    issubclass .bool .int = true ∧ issubclass (.other .intSub) .integral = true ∧
+    issubclass (.other .userSub) .user = true ∧ issubclass (.other .user) .userSub = false ∧
+    issubclass (.other .namedTuple) .tuple = true ∧ issubclass (.other .fraction) .integral = false := by decide
+
+example :
+    (mkSelector false (.cls .number)).map (fun o => call ["a"] o ⟨.other .float, none⟩) = some (.ok true) ∧
+    (mkSelector false (.cls .number)).map (fun o => call ["a"] o ⟨.str "s", some [none]⟩) = some (.ok false) := by
+  decide
+
 /-- **`Filter.run` in general** — the flow is consumed up to the first value on which the selector raises;
 the selected ones among the values before it are yielded, in order; the exception propagates -/
 theorem filter_stops_at_first_error (o : Obj) (vs : List Item) :
@@ -887,6 +942,43 @@ theorem groupby_groups_perm (w : Nat) (t : Tree) (vs : List Item) :
   intro v hv
   simp only [List.mem_eraseDups, decide_eq_true_eq]
   exact List.mem_map.2 ⟨v, hv, rfl⟩
+
+/-- equal values are different values of the flow (each is kept, in its place), and no order of the data matters:
+a flow with data `3, 1, 3, 2, 3` and contexts `near, far, near, near, far` gives `[3, 3, 2]` and `[1, 3]` -/
+example :
+    let t : Tree := .node false [0] []          -- GroupBy("a", "")
+    let near : Option Slots := some [some (.leaf (.str "near"))]
+    let far : Option Slots := some [some (.leaf (.str "far"))]
+    (gbCompute ([⟨.int 3, near⟩, ⟨.int 1, far⟩, ⟨.int 3, near⟩, ⟨.int 2, near⟩, ⟨.int 3, far⟩].foldl (gbFill 1 t) [])).map
+      (List.map (fun v => v.data)) = [[.int 3, .int 3, .int 2], [.int 1, .int 3]] := by decide
+
+/-- another value with the same context -/
+def Item.withData (f : Data → Data) (v : Item) : Item := { v with data := f v.data }
+
+/-- **"GroupBy partitions … by the selected context"** — the data of the values plays no role: the group key of a
+value is computed from its context alone (a value without context has the empty context, whatever its data is —
+a number, a string, a pair), and replacing the data of every value of a flow (by any function) yields the same
+groups, of the replaced values -/
+theorem groupby_ignores_data (w : Nat) (t : Tree) (f : Data → Data) (vs : List Item) :
+    (∀ v, groupKey w t (v.withData f) = groupKey w t v) ∧
+    (∀ d d' : Data, groupKey w t ⟨d, none⟩ = groupKey w t ⟨d', none⟩) ∧
+    gbCompute ((vs.map (Item.withData f)).foldl (gbFill w t) []) =
+      (gbCompute (vs.foldl (gbFill w t) [])).map (List.map (Item.withData f)) := by
+  have hk : ∀ v, groupKey w t (v.withData f) = groupKey w t v := fun _ => rfl
+  refine ⟨hk, fun _ _ => rfl, ?_⟩
+  rw [(groupby_partition w t (vs.map (Item.withData f))).1, (groupby_partition w t vs).1]
+  have hm : (vs.map (Item.withData f)).map (groupKey w t) = vs.map (groupKey w t) := by
+    rw [List.map_map]; exact List.map_congr_left (fun v _ => hk v)
+  rw [hm, List.map_map]
+  apply List.map_congr_left
+  intro k _
+  simp only [Function.comp, List.filter_map]
+  congr 1
+
+example :
+    let t : Tree := .node false [0] []          -- GroupBy("a", "")
+    gbCompute ([⟨.tuple, none⟩, ⟨.tuple, some [some (.leaf (.int 1))]⟩, ⟨.str "s", none⟩].foldl (gbFill 1 t) [])
+      = [[⟨.tuple, none⟩, ⟨.str "s", none⟩], [⟨.tuple, some [some (.leaf (.int 1))]⟩]] := by decide
 
 /-- **the documented default**: `GroupBy()` (`group_by=""`, `merge=""`) is accepted and puts all filled values
 (with contexts over the key alphabet) into one group, in arrival order -/
